@@ -5,7 +5,7 @@ From Coq Require Import List Bool ZArith Lia.
 From Otto Require Import C01.Sem C01.Wf C01.Lang C01.Proofs.
 Import ListNotations.
 
-Notation exec_o := (exec_o eval truthy tick).
+Notation exec_o := (exec_o eval truthy tick recatch).
 Notation st3 := (state * list label * ores val)%type.
 
 Definition ext3 (s : state) (r : st3) : Prop := extends s (fst (fst r)).
@@ -79,10 +79,12 @@ Proof.
       eapply extends_trans; [exact Ht1|]. apply Hblk. }
     pose proof (Hp s0 L b) as H1.
     destruct (opolled tick (oblock (exec_o fuel)) s0 L b) as [[s1 L1] r1] eqn:E1; cbn [fst] in *.
-    assert (H2 : extends s0 (fst (fst (ocatch (opolled tick (oblock (exec_o fuel))) (s1, L1, r1) c)))).
+    assert (H2 : extends s0 (fst (fst (ocatch recatch (opolled tick (oblock (exec_o fuel))) (s1, L1, r1) c)))).
     { unfold ocatch. destruct r1 as [o|v|]; destruct c as [cb|]; cbn [fst]; try exact H1.
-      eapply extends_trans; [exact H1|]. apply Hp. }
-    destruct (ocatch (opolled tick (oblock (exec_o fuel))) (s1, L1, r1) c) as [[s2 L2] r2]; cbn [fst] in *.
+      pose proof (Hp s1 L1 cb) as Hc.
+      destruct (opolled tick (oblock (exec_o fuel)) s1 L1 cb) as [[s2' L2'] [o2|v2|]]; cbn [fst] in *;
+        eapply extends_trans; eassumption. }
+    destruct (ocatch recatch (opolled tick (oblock (exec_o fuel))) (s1, L1, r1) c) as [[s2 L2] r2]; cbn [fst] in *.
     eapply extends_trans; [exact Ht|].
     unfold ofinally. destruct f as [fb|].
     + destruct r2 as [o|v|]; cbn [fst]; try exact H2;
